@@ -13,7 +13,7 @@
 struct alw_ctl alw;
 static const char *NAMES[] = {"malloc", "mmap", "mremap", "munmap", "open", "fstat", "read", "fopen", "fwrite", "fclose", "write", "calloc", "realloc", "fflush", "fdopen", "ftruncate"};
 const char *alw_kind_name(int k) { return k >= 0 && k < ALW_NKINDS ? NAMES[k] : "?"; }
-void alw_reset(void) { int g = alw.guard_files, c = alw.guard_code, f = alw.force_move, fo = alw.fill_on; unsigned char fb = alw.fill; long s = alw.salt; memset(&alw, 0, sizeof alw); alw.guard_files = g; alw.guard_code = c; alw.force_move = f; alw.salt = s; alw.fill_on = fo; alw.fill = fb; }
+void alw_reset(void) { int g = alw.guard_files, c = alw.guard_code, f = alw.force_move, fo = alw.fill_on, sr = alw.short_read, tc = alw.tight_code; unsigned char fb = alw.fill; long s = alw.salt; memset(&alw, 0, sizeof alw); alw.guard_files = g; alw.guard_code = c; alw.force_move = f; alw.salt = s; alw.fill_on = fo; alw.fill = fb; alw.short_read = sr; alw.tight_code = tc; }
 /* realistic errno values, rotating with the index of the failed call */
 static int pick(const int *v, int n) { return v[(unsigned long)(alw.counter + alw.fail_at + alw.salt) % (unsigned long)n]; }
 static const int E_MEM[] = {ENOMEM, EAGAIN}, E_OPEN[] = {EMFILE, ENFILE, EACCES, EINTR, ENOENT}, E_IO[] = {EIO, EINTR, ENOSPC, EDQUOT};
@@ -29,6 +29,17 @@ static int hit(int kind) {
 
 void *alw_malloc(size_t n) { if (hit(ALW_MALLOC)) { errno = ENOMEM; return NULL; } void *p = malloc(n); if (p && alw.fill_on) memset(p, alw.fill, n); return p; }
 
+/* a read-write-exec region of len bytes whose last byte is the last byte of a page, followed by an inaccessible page */
+static void *tight_map(size_t len, int prot) {
+  size_t pg = 4096, span = (len + pg - 1) / pg * pg;
+  unsigned char *res = mmap(NULL, span + pg, PROT_NONE, MAP_PRIVATE | MAP_ANONYMOUS, -1, 0);
+  if (res == MAP_FAILED) return MAP_FAILED;
+  if (mprotect(res, span, prot) != 0) { munmap(res, span + pg); return MAP_FAILED; }
+  return res + (span - len);
+}
+static int tight_is(const void *p) { return ((unsigned long)p & 4095) != 0; /* only tight_map hands out unaligned regions */ }
+static void tight_unmap(void *p, size_t len) { size_t pg = 4096; unsigned long a = (unsigned long)p, base = a & ~(pg - 1); size_t span = ((a - base) + len + pg - 1) / pg * pg; munmap((void *)base, span + pg); }
+
 void *alw_mmap(void *addr, size_t len, int prot, int flags, int fd, off_t off) {
   if (hit(ALW_MMAP)) { errno = ENOMEM; return MAP_FAILED; }
   if (alw.guard_files && addr == NULL && len > 0 && len < (1u << 26) && (fd >= 0 || (prot & PROT_EXEC) == 0)) {
@@ -42,6 +53,7 @@ void *alw_mmap(void *addr, size_t len, int prot, int flags, int fd, off_t off) {
     if (p == MAP_FAILED) { munmap(res, span + pg); return MAP_FAILED; }
     return p; /* the trailing guard page stays reserved (leaked on munmap; harmless in short-lived workers) */
   }
+  if (alw.tight_code && addr == NULL && len > 0 && len < (1u << 28) && fd < 0 && (prot & PROT_EXEC)) return tight_map(len, prot);
   if (alw.guard_code && addr == NULL && len > 0 && len < (1u << 26) && fd < 0 && (prot & PROT_EXEC)) {
     /* the library-managed code buffer: reserve inaccessible pages behind it, so that a write past the mapped length
      * faults (a later, real mremap moves the buffer away from the reservation, which is fine) */
@@ -56,6 +68,13 @@ void *alw_mmap(void *addr, size_t len, int prot, int flags, int fd, off_t off) {
 }
 void *alw_mremap(void *old, size_t oldlen, size_t newlen, int flags, ...) {
   if (hit(ALW_MREMAP)) { errno = pick(E_MEM, 2); return MAP_FAILED; }
+  if (tight_is(old) || (alw.tight_code && (flags & MREMAP_MAYMOVE))) { /* grow into a fresh end-aligned region; the old one disappears */
+    if (!(flags & MREMAP_MAYMOVE)) { errno = ENOMEM; return MAP_FAILED; }
+    void *fresh = tight_map(newlen, PROT_READ | PROT_WRITE | PROT_EXEC); if (fresh == MAP_FAILED) return MAP_FAILED;
+    memcpy(fresh, old, oldlen < newlen ? oldlen : newlen);
+    if (tight_is(old)) tight_unmap(old, oldlen); else munmap(old, oldlen);
+    return fresh;
+  }
   if (alw.force_move && (flags & MREMAP_MAYMOVE)) {
     /* relocate for sure: reserve a fresh range and move the mapping there; the old range is left unmapped */
     void *fresh = mmap(NULL, newlen, PROT_NONE, MAP_PRIVATE | MAP_ANONYMOUS, -1, 0);
@@ -63,7 +82,7 @@ void *alw_mremap(void *old, size_t oldlen, size_t newlen, int flags, ...) {
   }
   return mremap(old, oldlen, newlen, flags);
 }
-int alw_munmap(void *addr, size_t len) { if (hit(ALW_MUNMAP)) { errno = EINVAL; return -1; } return munmap(addr, len); }
+int alw_munmap(void *addr, size_t len) { if (hit(ALW_MUNMAP)) { errno = EINVAL; return -1; } if (tight_is(addr)) { tight_unmap(addr, len); return 0; } return munmap(addr, len); }
 int alw_open(const char *path, int flags, ...) {
   mode_t mode = 0; if (flags & O_CREAT) { va_list ap; va_start(ap, flags); mode = va_arg(ap, mode_t); va_end(ap); }
   else { va_list ap; va_start(ap, flags); mode = va_arg(ap, mode_t); va_end(ap); }
@@ -71,7 +90,7 @@ int alw_open(const char *path, int flags, ...) {
   return open(path, flags, mode);
 }
 int alw_fstat(int fd, struct stat *st) { if (hit(ALW_FSTAT)) { errno = EIO; return -1; } return fstat(fd, st); }
-ssize_t alw_read(int fd, void *buf, size_t n) { if (hit(ALW_READ)) { errno = pick(E_IO, 2); return -1; } return read(fd, buf, n); }
+ssize_t alw_read(int fd, void *buf, size_t n) { if (hit(ALW_READ)) { errno = pick(E_IO, 2); return -1; } if (alw.short_read > 0 && n > (size_t)alw.short_read) n = (size_t)alw.short_read; return read(fd, buf, n); }
 FILE *alw_fopen(const char *path, const char *mode) { if (hit(ALW_FOPEN)) { errno = EACCES; return NULL; } return fopen(path, mode); }
 size_t alw_fwrite(const void *p, size_t sz, size_t n, FILE *f) {
   if (f == stderr || f == stdout) return fwrite(p, sz, n, f);   /* diagnostics, not a resource the property is about */
